@@ -35,7 +35,42 @@ class L(object):
         return "L%d%s" % (self.tag, "!" if self.stops else "")
 
 
+class RL(L):
+    """A listener that, the first time it is called, registers one more (plain) listener for the event being dispatched."""
+
+    def __init__(self, tag):
+        L.__init__(self, tag, False)
+        self.armed = True
+
+    def __call__(self, event, event_name, dispatcher):
+        L.__call__(self, event, event_name, dispatcher)
+        if self.armed:
+            self.armed = False
+            dispatcher.add_listener(event_name, L(1000 + self.tag, False), 0)
+
+
+def _sub_event():
+    from clikit.api.event.event import Event
+
+    class HaltEvent(Event):
+        """An event class of the application's own: it keeps the 'stopped' state its own way (the accessors are the interface)."""
+
+        def __init__(self):
+            Event.__init__(self)
+            self._halted = False
+
+        def stop_propagation(self):
+            self._halted = True
+
+        def is_propagation_stopped(self):
+            return self._halted
+
+    return HaltEvent()
+
+
 def _leaf(o):
+    if isinstance(o, RL):
+        return ("RL", o.tag, o.armed)
     if isinstance(o, L):
         return ("L", o.tag, o.stops)
     return None
@@ -69,6 +104,8 @@ class Spec(object):
     def fork(self, st):
         n = State(copy.deepcopy(st.d))
         n.regs = list(st.regs)
+        n.armed = set(getattr(st, "armed", ()))
+        n.rl = set(getattr(st, "rl", ()))
         return n
 
     def key(self, st):
@@ -76,10 +113,14 @@ class Spec(object):
 
     def ops(self, st, depth):
         out = self.adds + self.disp + self.qops
+        if self.readd:
+            # a dispatch with an event object of a subclass that keeps its own 'stopped' state; a listener that registers
+            # another listener while it is being called
+            out = out + [("dispatchS", e) for e in self.events[:1]] + [("add_rl", e, p) for e in self.events[:1] for p in self.priorities[:2]]
         if self.readd and st is not None:
             # the listener object of the first registration for an event is registered once more, under another priority
             for e in self.events[:1]:
-                mine = [r for r in st.regs if r[0] == e]
+                mine = [r for r in st.regs if r[0] == e and r[3] not in getattr(st, "rl", ())]
                 if mine and len(mine) < 3:
                     out = out + [("readd", e, p) for p in self.priorities if p != mine[0][1]]
         return out
@@ -99,25 +140,43 @@ class Spec(object):
             st.regs.append((e, p, bool(s), tag))
         elif op[0] == "readd":
             _, e, p = op
-            first = [r for r in st.regs if r[0] == e][0]
+            first = [r for r in st.regs if r[0] == e and r[3] not in getattr(st, "rl", ())][0]
             st.d.add_listener(e, L(first[3], first[2]), p)
             st.regs.append((e, p, first[2], first[3]))
-        elif op[0] in ("dispatch", "dispatch0"):
+        elif op[0] == "add_rl":
+            _, e, p = op
+            tag = len(st.regs)
+            st.d.add_listener(e, RL(tag), p)
+            st.regs.append((e, p, False, tag))
+            st.armed = set(getattr(st, "armed", ())) | {tag}
+            st.rl = set(getattr(st, "rl", ())) | {tag}
+        elif op[0] in ("dispatch", "dispatch0", "dispatchS"):
             e = op[1]
             del LOG[:]
             if op[0] == "dispatch":
                 ev = Event()
                 ret = st.d.dispatch(e, ev)
+            elif op[0] == "dispatchS":
+                ev = _sub_event()
+                ret = st.d.dispatch(e, ev)
             else:
                 ret = ev = st.d.dispatch(e)
             got = list(LOG)
             del LOG[:]
+            # listeners registered DURING this dispatch (by a listener being called): whether they already take part in it is
+            # not demanded - they are set aside here and belong to the registrations from now on
+            fired = [g[0] for g in got if g[0] in getattr(st, "armed", ())]
+            late = set(1000 + t for t in fired)
+            got = [g for g in got if g[0] not in late]
             exp = []
             for r in self.expected_order(st, e):
                 exp.append(r[3])
                 if r[2]:
                     break
             got_tags = [g[0] for g in got]
+            for t in fired:
+                st.armed = set(st.armed) - {t}
+                st.regs.append((e, 0, False, 1000 + t))
             if got_tags != exp:
                 if sorted(got_tags) == sorted(exp):
                     kind = "dispatch-order"
